@@ -54,7 +54,7 @@ pub fn probe<I: Iterator, T>(cx: &mut Ctx, noalloc: bool, mut it: I, which: usiz
                     return out;
                 }
             }
-            out.hint_after = Some(it.size_hint());
+            out.hint_after = Some(size_hint_of(&it));
             let mut ended = false;
             for _ in 0..cap + 4 {
                 match lib(cx, noalloc, || it.next()) {
@@ -255,4 +255,60 @@ pub fn check_multiset<T: PartialEq + Debug + Clone>(o: &ProbeOut<T>, rest: &[T],
         }
     }
     Ok(())
+}
+
+/// `(len(), size_hint())` of an iterator under test; a panic inside either call is reported
+/// as an impossible value, which every exact-length / bracketing comparison rejects.
+pub fn hint_of<I: ExactSizeIterator>(it: &I) -> (usize, (usize, Option<usize>)) {
+    tl::quiet(|| (it.len(), it.size_hint())).unwrap_or((usize::MAX, (usize::MAX, Some(0))))
+}
+
+pub fn size_hint_of<I: Iterator>(it: &I) -> (usize, Option<usize>) {
+    tl::quiet(|| it.size_hint()).unwrap_or((usize::MAX, Some(0)))
+}
+
+/// `next()` after the end: true if it (still) reports None; a panic counts as "not None".
+pub fn ended_none<I: Iterator>(it: &mut I) -> bool {
+    tl::quiet(|| it.next().is_none()).unwrap_or(false)
+}
+
+/// A panic escaped from an engine step outside every library-call window: the library panicked
+/// while the oracle was merely observing it (len(), size_hint(), cloning an iterator, a second
+/// traversal ...). The property that owns the operation in flight reports it; for any other
+/// armed property the rest of the case is discarded.
+pub fn escaped_panic(cx: &mut Ctx, liar: bool, set_engine: bool, payload: Box<dyn std::any::Any + Send>) {
+    let msg: String = if let Some(s) = payload.downcast_ref::<&'static str>() {
+        (*s).to_string()
+    } else if let Some(s) = payload.downcast_ref::<String>() {
+        s.clone()
+    } else {
+        "<non-string payload>".to_string()
+    };
+    let owner = match cx.cur_op {
+        "walk" => Prop::C09,
+        "consume" | "drain" => Prop::C10,
+        "entry" => Prop::C11,
+        "clone" => Prop::C15,
+        "get_disjoint_mut" | "disjoint_sweep" => Prop::C13,
+        "overflow_sweep" | "capacity" => Prop::C03,
+        "fmt" => Prop::C19,
+        "eq" | "eq/sub" => Prop::C14,
+        "from_iter" | "extend" => Prop::C16,
+        "insert_unchecked" => Prop::C18,
+        _ => {
+            if set_engine {
+                Prop::C07
+            } else {
+                Prop::C01
+            }
+        }
+    };
+    if liar || cx.armed != owner {
+        cx.discard = true;
+        cx.bump(S::discarded_setups);
+        let an = cx.armed.name();
+        cx.log(|| format!("   (panic while observing the container, not owned by {an}: {msg})"));
+        return;
+    }
+    cx.chk(PS::of(owner), false, "panic-while-observing", || format!("the library panicked while the oracle was observing it (outside any call the model expects to panic): {msg}"));
 }
